@@ -1,0 +1,12 @@
+//go:build verif
+
+package protoprint
+
+// Contracts for contract-based verification (/verif, property C14): printed elements are ordered
+// by source line when both have one, otherwise by element kind and declaration index.
+
+//@ func (sourceElements).Less
+//@   requires 0 <= i && i < len(se) && 0 <= j && j < len(se)
+//@   ensures fallbackKind: (se[i].sourceLocation.StartLine == 0 || se[j].sourceLocation.StartLine == 0) && se[i].typeOrder != se[j].typeOrder ==> result == (se[i].typeOrder < se[j].typeOrder)
+//@   ensures fallbackIndex: (se[i].sourceLocation.StartLine == 0 || se[j].sourceLocation.StartLine == 0) && se[i].typeOrder == se[j].typeOrder ==> result == (descIndex(se[i].descriptor) < descIndex(se[j].descriptor))
+//@   ensures byLine: se[i].sourceLocation.StartLine != 0 && se[j].sourceLocation.StartLine != 0 ==> result == (se[i].sourceLocation.StartLine < se[j].sourceLocation.StartLine)
